@@ -91,7 +91,7 @@ def run_case(ctx, desc):
     try:
         # the links are listed in a seeded random order of faces and axes (half of the cases): listing order is not topology
         t_listed = linktable.listed_in_order(t, desc["dseed"]) if desc["dseed"] % 2 else t
-        g = Grid(ds, coords=cm, face_connections={"face": t_listed}, periodic=False, autoparse_metadata=False, **gkw)
+        g = Grid(ds, coords=cm, face_connections={"face": linktable.spelled(t_listed, desc["dseed"] // 2)}, periodic=False, autoparse_metadata=False, **gkw)
     except Exception as e:
         ctx.judged(("ctor", Kx, Ky), True)
         ctx.violation("geometric-table-accepted", f"Grid raised {type(e).__name__}: {str(e)[:200]} for table {t}")
@@ -184,7 +184,7 @@ def run_with_z(ctx, desc, T, t, ds, cm, z):
     fv = desc["fill"]
     t_listed = linktable.listed_in_order(t, desc["dseed"]) if desc["dseed"] % 2 else t
     try:
-        g = Grid(ds, coords=cm, face_connections={"face": t_listed}, periodic=False, boundary=rule, fill_value=fv, autoparse_metadata=False)
+        g = Grid(ds, coords=cm, face_connections={"face": linktable.spelled(t_listed, desc["dseed"] // 2)}, periodic=False, boundary=rule, fill_value=fv, autoparse_metadata=False)
     except Exception as e:
         ctx.judged(("ctor-z",), True)
         ctx.violation("geometric-table-accepted", f"Grid with an extra unconnected axis raised {type(e).__name__}: {str(e)[:200]}")
